@@ -179,6 +179,14 @@ func genRouting(prop string) func(tier string, seed uint64, idx int) interface{}
 					if r.Bool(1, 5) {
 						op.NoWait = op.QoS < 2
 					}
+					if r.Bool(1, 25) {
+						op.Size = 0 // empty payload (attributed by its topic)
+						x.emptyN++
+						op.Topic = fmt.Sprintf("%s/e%d", x.levels[0], x.emptyN)
+					}
+					if r.Bool(1, 12) {
+						op.Retain = true
+					}
 					cl.Ops = append(cl.Ops, op)
 				case k < 17:
 					cl.Ops = append(cl.Ops, Op{K: "barrier"})
@@ -489,4 +497,235 @@ func validFilterLocal(f string) bool {
 		}
 	}
 	return f != ""
+}
+
+// genRetained is the C08 profile.
+func genRetained(prop string) func(tier string, seed uint64, idx int) interface{} {
+	return func(tier string, seed uint64, idx int) interface{} {
+		x := newGen(seed, prop, idx, tier)
+		r := x.r
+		x.sc.Profile = "retained"
+		x.knobs()
+		x.sc.Knobs.MaxQoS = byte([]int{2, 2, 2, 1, 0}[r.Intn(5)])
+		x.alphabet(r.Bool(1, 5))
+		// a small set of topics so that updates and clears hit the same ones
+		nt := 1 + r.Intn(8)
+		var ts []string
+		for i := 0; i < nt; i++ {
+			ts = append(ts, x.topic())
+		}
+		npub := 1 + r.Intn(2)
+		nsub := 1 + r.Intn(3)
+		nc := npub + nsub
+		x.seq = make([]int, nc)
+		x.pid = make([]int, nc)
+		bulk := r.Bool(1, 2)
+		for ci := 0; ci < npub; ci++ {
+			cl := Client{}
+			cl.Ops = append(cl.Ops, x.connect(ci, true))
+			n := 2 + r.Intn(8)
+			for i := 0; i < n; i++ {
+				x.seq[ci]++
+				op := Op{K: "pub", Topic: ts[r.Intn(len(ts))], QoS: byte(r.Intn(3)), Seq: x.seq[ci]}
+				switch k := r.Intn(10); {
+				case k < 6:
+					op.Retain = true
+					op.Size = x.size()
+				case k < 8:
+					op.Retain = true
+					op.Size = 0 // clears
+				default:
+					op.Size = 8 + r.Intn(100)
+				}
+				if op.QoS > 0 {
+					op.PID = x.nextPID(ci)
+				}
+				if op.QoS < 2 && r.Bool(1, 4) {
+					op.NoWait = true
+				}
+				cl.Ops = append(cl.Ops, op)
+				if bulk && r.Bool(1, 3) {
+					// unrelated traffic that overwrites the publisher's rings
+					total := 0
+					for total < x.sc.Knobs.BufSize+4096 && total < 80000 {
+						x.seq[ci]++
+						sz := 3000 + r.Intn(4000)
+						cl.Ops = append(cl.Ops, Op{K: "pub", Topic: "z/bulk", Size: sz, Seq: x.seq[ci], NoWait: true})
+						total += sz
+					}
+				}
+				if r.Bool(1, 3) {
+					cl.Ops = append(cl.Ops, Op{K: "barrier"})
+				}
+				if r.Bool(1, 6) {
+					cl.Ops = append(cl.Ops, Op{K: "ping"})
+				}
+			}
+			cl.Ops = append(cl.Ops, Op{K: "ping"}, Op{K: "barrier"})
+			x.sc.Clients = append(x.sc.Clients, cl)
+		}
+		for ci := npub; ci < nc; ci++ {
+			cl := Client{}
+			cl.Ops = append(cl.Ops, x.connect(ci, true))
+			n := 1 + r.Intn(5)
+			for i := 0; i < n; i++ {
+				if r.Bool(1, 2) {
+					cl.Ops = append(cl.Ops, Op{K: "barrier"})
+				}
+				op := Op{K: "sub", PID: x.nextPID(ci)}
+				nf := 1 + r.Intn(3)
+				for j := 0; j < nf; j++ {
+					f := ts[r.Intn(len(ts))]
+					switch r.Intn(4) {
+					case 0:
+						f = x.filter()
+					case 1:
+						f = "#"
+					}
+					op.Filters = append(op.Filters, f)
+					op.QoSs = append(op.QoSs, byte(r.Intn(3)))
+				}
+				cl.Ops = append(cl.Ops, op)
+				if r.Bool(1, 4) {
+					cl.Ops = append(cl.Ops, Op{K: "unsub", PID: x.nextPID(ci), Filters: []string{op.Filters[0]}})
+				}
+			}
+			cl.Ops = append(cl.Ops, Op{K: "ping"})
+			x.sc.Clients = append(x.sc.Clients, cl)
+		}
+		if r.Bool(1, 3) {
+			n := 1 + r.Intn(4)
+			for i := 0; i < n; i++ {
+				switch r.Intn(3) {
+				case 0:
+					x.inSeq++
+					sz := x.size()
+					if r.Bool(1, 4) {
+						sz = 0
+					}
+					x.sc.Inproc = append(x.sc.Inproc, InprocOp{K: "pub", Topic: ts[r.Intn(len(ts))], QoS: byte(r.Intn(3)), Retain: true, Size: sz, Seq: x.inSeq})
+				case 1:
+					f := ts[r.Intn(len(ts))]
+					if r.Bool(1, 2) {
+						f = "#"
+					}
+					x.sc.Inproc = append(x.sc.Inproc, InprocOp{K: "sub", CB: 0, Filter: f, QoS: byte(r.Intn(3))})
+				default:
+					x.sc.Inproc = append(x.sc.Inproc, InprocOp{K: "barrier"})
+				}
+			}
+		}
+		return x.sc
+	}
+}
+
+// genReceiver is the C02 profile (broker role): a scripted publisher
+// interleaves PUBLISH q1/q2, DUP repeats, PUBREL, repeated PUBREL, PUBREL for
+// unknown ids and bulk QoS 0 traffic over a few packet identifiers; a witness
+// subscribes to everything at QoS 2.
+func genReceiver(prop string) func(tier string, seed uint64, idx int) interface{} {
+	return func(tier string, seed uint64, idx int) interface{} {
+		x := newGen(seed, prop, idx, tier)
+		r := x.r
+		x.sc.Profile = "receiver"
+		x.knobs()
+		x.sc.Knobs.LinkCap = 65536
+		x.alphabet(false)
+		x.seq = make([]int, 3)
+		x.pid = make([]int, 3)
+		// witness
+		w := Client{Role: "witness"}
+		w.Ops = append(w.Ops, x.connect(0, true), Op{K: "sub", PID: 1, Filters: []string{"#"}, QoSs: []byte{byte([]int{2, 2, 1, 0}[r.Intn(4)])}}, Op{K: "barrier"})
+		x.sc.Clients = append(x.sc.Clients, w)
+		// publisher
+		cl := Client{}
+		cl.Ops = append(cl.Ops, x.connect(1, true), Op{K: "barrier"})
+		nid := 1 + r.Intn(4)
+		ids := make([]uint16, nid)
+		for i := range ids {
+			ids[i] = uint16(1 + r.Intn(65535))
+		}
+		type ex struct {
+			op   Op
+			open bool
+		}
+		open := map[uint16]*ex{}
+		var order []uint16 // open exchanges in the order of their PUBLISH
+		inOrder := r.Bool(4, 5)
+		n := 3 + r.Intn(14)
+		bulk := r.Bool(1, 2)
+		for i := 0; i < n; i++ {
+			id := ids[r.Intn(nid)]
+			if inOrder && len(order) > 0 && r.Bool(1, 2) {
+				id = order[0] // conforming senders release the oldest exchange first
+			}
+			e := open[id]
+			if inOrder && e != nil && order[0] != id {
+				e = nil
+				id = order[0]
+				e = open[id]
+			}
+			switch k := r.Intn(12); {
+			case k < 3 && e == nil: // QoS 1, maybe with DUP repeats
+				x.seq[1]++
+				op := Op{K: "pub", Topic: x.topic(), QoS: 1, PID: id, Size: x.size(), Seq: x.seq[1], NoWait: r.Bool(1, 2)}
+				cl.Ops = append(cl.Ops, op)
+				for r.Bool(1, 4) {
+					d := op
+					d.Dup = true
+					cl.Ops = append(cl.Ops, d)
+				}
+			case k < 6 && e == nil: // open a QoS 2 exchange
+				x.seq[1]++
+				op := Op{K: "pub", Topic: x.topic(), QoS: 2, PID: id, Size: x.size(), Seq: x.seq[1], NoRel: true, NoWait: r.Bool(1, 2)}
+				cl.Ops = append(cl.Ops, op)
+				open[id] = &ex{op: op, open: true}
+				order = append(order, id)
+			case k < 8 && e != nil: // DUP repeat before the release
+				d := e.op
+				d.Dup = true
+				d.NoWait = r.Bool(1, 2)
+				cl.Ops = append(cl.Ops, d)
+			case k < 10 && e != nil: // release
+				cl.Ops = append(cl.Ops, Op{K: "pubrel", PID: id, NoWait: r.Bool(1, 3)})
+				for r.Bool(1, 4) {
+					cl.Ops = append(cl.Ops, Op{K: "pubrel", PID: id, NoWait: r.Bool(1, 2)})
+				}
+				delete(open, id)
+				for k, o := range order {
+					if o == id {
+						order = append(order[:k], order[k+1:]...)
+						break
+					}
+				}
+			case k < 11: // PUBREL for an identifier that is not in flight
+				if e == nil {
+					cl.Ops = append(cl.Ops, Op{K: "pubrel", PID: id, NoWait: r.Bool(1, 2)})
+				}
+			default:
+				if r.Bool(1, 2) {
+					cl.Ops = append(cl.Ops, Op{K: "ping"})
+				}
+			}
+			if bulk && r.Bool(1, 3) {
+				total := 0
+				for total < 2*x.sc.Knobs.BufSize && total < 70000 {
+					x.seq[1]++
+					sz := 3000 + r.Intn(4500)
+					cl.Ops = append(cl.Ops, Op{K: "pub", Topic: "z/bulk", Size: sz, Seq: x.seq[1], NoWait: true})
+					total += sz
+				}
+			}
+		}
+		// release what is still open in most runs (oldest first)
+		for _, id := range order {
+			if !r.Bool(3, 4) {
+				break
+			}
+			cl.Ops = append(cl.Ops, Op{K: "pubrel", PID: id})
+		}
+		cl.Ops = append(cl.Ops, Op{K: "ping"}, Op{K: "barrier"})
+		x.sc.Clients = append(x.sc.Clients, cl)
+		return x.sc
+	}
 }
